@@ -202,3 +202,34 @@ func zzH_C09_validator() {
 	zzverif.Assert(zzC09SameVal(before, after), "revert restores every validator-side observable")
 	zzverif.Reach("end")
 }
+
+// zzH_C09_staking_records: a reverted frame leaves no pending staking record or pending
+// relationship behind.  Known finding: these two stores are not journalled at all.
+func zzH_C09_staking_records() {
+	s := zzNewState()
+	d, v := zzAddr(7), zzValAddr(1)
+	if zzverif.Bool("recordExistsBefore") {
+		s.AddStakingRecord(d, v, common.Hash{1}, big.NewInt(5))
+	}
+	value := s.GetStakingRecordValue(d, v)
+	hashes := 0
+	if r := s.GetStakingRecord(d, v); r != nil {
+		hashes = len(r.TxHashes)
+	}
+	rel := s.PendingRelationshipExist(d, v)
+	id := s.Snapshot()
+	if zzverif.Bool("frameAddsRecord") {
+		s.AddStakingRecord(d, v, common.Hash{2}, big.NewInt(9))
+	} else {
+		s.AddPendingRelationship(d, v)
+	}
+	s.RevertToSnapshot(id)
+	zzverif.Reach("reverted")
+	now := 0
+	if r := s.GetStakingRecord(d, v); r != nil {
+		now = len(r.TxHashes)
+	}
+	same := s.GetStakingRecordValue(d, v).Cmp(value) == 0 && now == hashes && s.PendingRelationshipExist(d, v) == rel
+	zzverif.AssertKF(same, "revert restores pending staking records and pending relationships", "C09-staking-records-not-journalled", true)
+	zzverif.Reach("end")
+}
